@@ -220,21 +220,6 @@ Print Assumptions C05_occlusion_max_in_region.
    for RISE / HSIC / Lime / KernelShap / Sobol-after-resize and for the Sobol estimators other than Jansen is
    statistical (DESIGN.md section 6): support evidence from the correspondence only. *)
 
-(* non-vacuity: a 3x5 image and a 2x2 grid (2 divides neither 3 nor 5): row blocks {0} | {1,2}, column blocks
-   {0,1} | {2,3,4}; region = the single pixel (0, 4): cell 1 is the only active cell; a score reading the features of
-   that pixel only meets the hypothesis; an Occlusion geometry 4x6, patch (2,2), stride (1,2) with the region in the
-   top-left corner leaves position (3, 5) untouched and position (1, 1) touched *)
-Example C05_nonvacuous :
-  map (nb_idx 2 3) (seq 0 3) = [0; 1; 1] /\ map (nb_idx 2 5) (seq 0 5) = [0; 0; 1; 1; 1] /\
-  map (inert_cell 2 3 5 (rect 5 0 1 4 5)) (seq 0 4) = [true; false; true; true] /\
-  ignores_outside 2 (rect 5 0 1 4 5) (fun x _ => (nthq x 8 + nthq x 9)%Qc) /\
-  map (occl_untouched (Grid 4 6 1 2 2 1 2) (rect 6 0 1 0 2)) [7; 23] = [false; true] /\
-  hsic_dims_lit 0 2 1 [[[1; 2]; [3; 4]]] = [[1]; [3]; [2]; [4]] /\ hsic_post_lit 0 2 [1; 3; 2; 4] = [[1; 2]; [3; 4]].
-Proof.
-  repeat split; try reflexivity.
-  intros x x' t [_ H]. rewrite (H 8), (H 9) by reflexivity. reflexivity.
-Qed.
-
 (* ------------------------------------------------------------------ record of a defect found through this property
    The property says "Sobol assigns them zero before upsampling" for all estimators.  The faithful model of the code
    as found refuted it for HommaEstimator and SaltelliEstimator: an inert cell received exactly 1/n (the 1/n moment was
@@ -250,3 +235,20 @@ Theorem C05_sobol_zero_inert_refuted_orig :
     nthq (low homma_orig) i = (1 / qn n)%Qc /\ nthq (low saltelli_orig) i = (1 / qn n)%Qc /\ (1 / qn n)%Qc <> 0%Qc.
 Proof. exact sobol_zero_inert_refuted_orig_exists. Qed.
 Print Assumptions C05_sobol_zero_inert_refuted_orig.
+
+(* non-vacuity: a 3x5 image and a 2x2 grid (2 divides neither 3 nor 5): row blocks {0} | {1,2}, column blocks
+   {0,1} | {2,3,4}; region = the single pixel (0, 4): cell 1 is the only active cell; a score reading the features of
+   that pixel only meets the hypotheses (depends only on the region, increasing); an Occlusion geometry 4x6, patch (2,2), stride (1,2) with the region in the
+   top-left corner leaves position (3, 5) untouched and position (1, 1) touched *)
+Example C05_nonvacuous :
+  map (nb_idx 2 3) (seq 0 3) = [0; 1; 1] /\ map (nb_idx 2 5) (seq 0 5) = [0; 0; 1; 1; 1] /\
+  map (inert_cell 2 3 5 (rect 5 0 1 4 5)) (seq 0 4) = [true; false; true; true] /\
+  ignores_outside 2 (rect 5 0 1 4 5) (fun x _ => (nthq x 8 + nthq x 9)%Qc) /\
+  increasing (fun x _ => (nthq x 8 + nthq x 9)%Qc) /\
+  map (occl_untouched (Grid 4 6 1 2 2 1 2) (rect 6 0 1 0 2)) [7; 23] = [false; true] /\
+  hsic_dims_lit 0 2 1 [[[1; 2]; [3; 4]]] = [[1]; [3]; [2]; [4]] /\ hsic_post_lit 0 2 [1; 3; 2; 4] = [[1; 2]; [3; 4]].
+Proof.
+  repeat split; try reflexivity.
+  - intros x x' t [_ H]. rewrite (H 8), (H 9) by reflexivity. reflexivity.
+  - intros x x' t _ H. apply Qcplus_le_compat; apply H.
+Qed.
